@@ -275,7 +275,7 @@ fn damage() -> impl Strategy<Value = Damage> {
         2 => (any::<u8>(), 0u8..8).prop_map(|(byte, bit)| Damage::TocChecksumField { byte, bit }),
         2 => (any::<u8>(), 0u8..8).prop_map(|(byte, bit)| Damage::Footer { byte, bit }),
         4 => (0u8..3, any::<u16>(), 1u8..64, any::<bool>()).prop_map(|(which, at, len, zero)| Damage::Segment { which, at, len, zero }),
-        2 => (prop_oneof![1u16..200, 200u16..60000], any::<bool>()).prop_map(|(len, zero)| Damage::Tail { len, zero }),
+        4 => (prop_oneof![1u16..200, 200u16..60000], any::<bool>()).prop_map(|(len, zero)| Damage::Tail { len, zero }),
     ]
 }
 
@@ -433,6 +433,12 @@ pub fn build(ctx: &Ctx) -> Vec<Box<dyn Arm>> {
                     // "crash-interrupted OR damaged only in ...": one cause per input file, except that a kill-left
                     // file may also carry a damaged header field (both are header-healing inputs of the same run)
                     let damage = if kill && !matches!(damage, Damage::HeaderPointer { .. } | Damage::HeaderTocChecksum { .. }) { Damage::None } else { damage };
+                    // bytes behind the footer are only left in place by a run that rebuilds nothing:
+                    // half of those inputs get the plain default options
+                    let opts = match &damage {
+                        Damage::Tail { len, .. } if len % 2 == 0 => (false, false, false, false, false),
+                        _ => opts,
+                    };
                     Case { dim, ops, kill, damage, opts }
                 })
         },
